@@ -33,10 +33,12 @@ def tasks_for(pid, tier, seed):
             kern("version_next", True, ("wrapping_version",), what="wrapping_version: wraps to 1, never 0")
     if pid == "C12":
         kern("growth", True, what="grow(): capacity < 2^24 => strictly larger, <= 2^24; >= 2^24 => false before any store")
+        kern("admission", True, what="push panics exactly when len == capacity == 2^24 (grow's contract assumed, discharged by the growth kernel of the same run), calls grow only on a full storage, creates only with room; push_within_capacity creates iff len < capacity and returns Err otherwise")
         kern("constants", True, what="MAX_DATA_CAPACITY == 2^24")
         kern("trimmed_index", True)
         if T:
             kern("growth", False)
+            kern("admission", False)
     if pid == "C14":
         kern("conversions", True, what="TryFrom/from_any/from_any_unchecked/from_raw/raw/archetype_id for a symbolic ARCHETYPE_ID")
         kern("hashing", True, what="Hash feeds one u64 that is injective in (key, generation)")
@@ -53,7 +55,7 @@ def tasks_for(pid, tier, seed):
                 kern("packing", True, fs)
                 kern("index_extraction", False, fs)
                 kern("growth", True, fs)
-    if pid == "C10":
+    if pid in ("C10", "C04"):
         t.append(dict(kind="unwind", dbg=True, features=(), name="unwind:Storage::clone",
                       what="MIR path fact: on the unwind edge of every user Clone::clone call inside Storage{N}::clone only RefCell guards are dropped (no partially initialised storage); confirmed natively by a Clone that panics at its k-th call"))
     if pid == "C15":
@@ -525,12 +527,12 @@ def run(pid, tier, spec):
         from .mirsym import progs
         t1 = time.time()
         neg = dict(name="negative-corpus: no-match / ambiguous OneOf through all five query macros", verdict="holds", reason="", queries=0, paths=0,
-                   what="10 real programs that must be rejected at compile time (query matching no archetype; OneOf matching two components of one archetype) x ecs_find!, ecs_find_borrow!, ecs_iter!, ecs_iter_borrow!, ecs_iter_destroy!",
-                   bounds="enumeration of 10 programs (not a solver task): the compile-error half of C05, observed on the real macros", functions=[], samples=[], validated_against_impl=0,
+                   what="19 real programs that must be rejected at compile time (query matching no archetype; OneOf matching two components of one archetype — arity 2, and arity 3 with the two owned members not adjacent, both orders, with a preceding plain parameter) x ecs_find!, ecs_find_borrow!, ecs_iter!, ecs_iter_borrow!, ecs_iter_destroy!",
+                   bounds="enumeration of 19 programs (not a solver task): the compile-error half of C05, observed on the real macros", functions=[], samples=[], validated_against_impl=0,
                    task=dict(kind="negative"), assumes=[], wall_s=0.0, solver_s=0.0)
         bad = []
-        for kind, needle in (("nomatch", "query matched no archetypes"), ("ambiguous", "ambiguous")):
-            for mac in ("ecs_find", "ecs_find_borrow", "ecs_iter", "ecs_iter_borrow", "ecs_iter_destroy"):
+        for kind, needle in (("nomatch", "query matched no archetypes"), ("ambiguous", "ambiguous"), ("ambiguous3", "ambiguous"), ("ambiguous3r", "ambiguous"), ("ambiguous3p", "ambiguous")):
+            for mac in (("ecs_find", "ecs_find_borrow", "ecs_iter", "ecs_iter_borrow", "ecs_iter_destroy") if kind in ("nomatch", "ambiguous", "ambiguous3") else ("ecs_iter", "ecs_find")):
                 mod = "n_%s_%s" % (kind, mac)
                 failed, _, err = progs.expect_compile_error("neg_" + mod, progs.negative_module(mod, mac, kind), "")
                 neg["queries"] += 1
@@ -543,12 +545,32 @@ def run(pid, tier, spec):
             os.makedirs(common.REPLAY_DIR, exist_ok=True)
             path = os.path.join(common.REPLAY_DIR, "C05_negative_%s.json" % common.sha(bad[0]))
             with open(path, "w") as f:
-                json.dump({"kind": "e2", "property": "C05", "task": {"kind": "negative"}, "obligation": bad, "how_to_replay": "/verif/check C05 --tier quick (rebuilds the 10 programs)"}, f, indent=1)
+                json.dump({"kind": "e2", "property": "C05", "task": {"kind": "negative"}, "obligation": bad, "how_to_replay": "/verif/check C05 --tier quick (rebuilds the programs)"}, f, indent=1)
             neg["replay_path"] = path
         neg["wall_s"] = time.time() - t1
         neg["paths"] = neg["queries"]
-        common.log("%-12s %-48s %5.0fs %s" % (neg["verdict"], "negative corpus (10 programs)", neg["wall_s"], neg["reason"][:150]))
+        common.log("%-12s %-48s %5.0fs %s" % (neg["verdict"], "negative corpus (19 programs)", neg["wall_s"], neg["reason"][:150]))
         results.append(neg)
+    # admission kernel: boundary witnesses through the public API (validates the encoding; a deviation of the real
+    # program from the specification while every obligation holds is a violation demonstrated natively)
+    for r in results:
+        if r["verdict"] == "holds" and r.get("task", {}).get("family") == "admission" and r.get("task", {}).get("dbg"):
+            from .mirsym import progs
+            pts = [(1 << 24, 1 << 24), ((1 << 24) - 1, (1 << 24) - 1), (0, 0), (3, 5)]
+            devs = []
+            for ln, cp in pts:
+                ran, dev, raw = progs.run_admission(ln, cp)
+                if not ran:
+                    r["verdict"] = "inconclusive"; r["reason"] = "admission witness program did not run: " + raw[:200]
+                    break
+                devs += dev
+            else:
+                r["validated_against_impl"] = len(pts)
+                if devs:
+                    r["verdict"] = "violation"
+                    r["reason"] = "real program deviates from the specification although every MIR obligation holds: " + "; ".join(devs)[:300]
+                    r["task"] = dict(r["task"], kind="witness")
+                    r["replay_path"] = write_replay(pid, r, None)
     # replay counterexamples natively before they are reported
     for r in results:
         r.pop("validation_cases", None)
@@ -585,6 +607,20 @@ def run(pid, tier, spec):
                 else:
                     r["replay_path"] = write_replay(pid, r, ce)
                     r["reason"] = r["reason"] + " | real macro: " + dis[0][:200]
+            elif r.get("task", {}).get("family") == "admission" and isinstance(r.get("model"), dict) and "len" in r["model"] and "capacity" in r["model"]:
+                from .mirsym import progs
+                ln, cp = int(r["model"]["len"]), int(r["model"]["capacity"])
+                ran, dev, raw = progs.run_admission(ln, cp)
+                r["native"] = {"len": ln, "capacity": cp, "ran": ran, "deviations": dev, "output": raw}
+                if ran and dev:
+                    r["reason"] += " | real program (with_capacity(%d), %d creations): %s" % (cp, ln, "; ".join(dev))
+                    r["replay_path"] = write_replay(pid, r, None)
+                elif ran:
+                    r["verdict"] = "inconclusive"
+                    r["reason"] = "solver counterexample (len=%d, capacity=%d) did not reproduce through the public API: %s" % (ln, cp, r["reason"])
+                else:
+                    r["replay_path"] = write_replay(pid, r, None)
+                    r["note"] = "the state of the counterexample could not be built natively (%s); reported on the strength of three solver runs over the MIR" % raw[:200]
             else:
                 r["replay_path"] = write_replay(pid, r, None)
                 r["note"] = "kernel obligations are decided on the MIR by three solver runs; the counterexample model is recorded, there is no public API to drive the private kernel natively"
